@@ -557,6 +557,11 @@ size_t MemoryLeakDetector::sizeOfMemoryWithCorruptionInfo(size_t size)
     return calculateVoidPointerAlignedSize(size + memory_corruption_buffer_size);
 }
 
+bool MemoryLeakDetector::sizeWithAccountingInformationOverflows(size_t size)
+{
+    return size > ((size_t) -1) - (memory_corruption_buffer_size + sizeof(void*) + sizeof(MemoryLeakDetectorNode));
+}
+
 MemoryLeakDetectorNode* MemoryLeakDetector::getNodeFromMemoryPointer(char* memory, size_t memory_size)
 {
     return (MemoryLeakDetectorNode*) (void*) (memory + sizeOfMemoryWithCorruptionInfo(memory_size));
@@ -654,6 +659,7 @@ char* MemoryLeakDetector::allocMemory(TestMemoryAllocator* allocator, size_t siz
      * So, for malloc, we'll allocate the memory separately so we can detect this and give a proper error.
      */
 
+    if (sizeWithAccountingInformationOverflows(size)) return NULLPTR;
     char* memory = allocateMemoryWithAccountingInformation(allocator, size, file, line, allocatNodesSeperately);
     if (memory == NULLPTR) return NULLPTR;
     MemoryLeakDetectorNode* node = createMemoryLeakAccountingInformation(allocator, size, memory, allocatNodesSeperately);
@@ -709,6 +715,7 @@ char* MemoryLeakDetector::reallocMemory(TestMemoryAllocator* allocator, char* me
 #ifdef CPPUTEST_DISABLE_MEM_CORRUPTION_CHECK
    allocatNodesSeperately = true;
 #endif
+    if (sizeWithAccountingInformationOverflows(size)) return NULLPTR;
     if (memory) {
         MemoryLeakDetectorNode* node = memoryTable_.removeNode(memory);
         if (node == NULLPTR) {
